@@ -8,7 +8,7 @@ PROP = "C06"
 COUNT = {"quick": 1500, "thorough": 10000, "search": 4000}
 PARALLEL = True
 REL = "cryocat/geom.py"
-RULE = ("case families. pair: batches of 1..24 (thorough: ..200; dedicated batches of 48..160 and 161..500) orientation triples (a,b,c) + a common rotation g, rows drawn from "
+RULE = ("case families. pair: batches of 1..24 (thorough: ..200; dedicated batches of 25..47, 48..160 and 161..500) orientation triples (a,b,c) + a common rotation g, rows drawn from "
         "random / decimal angles with 1-3 decimals / near-identical (1e-9..10 deg apart, log-uniform) / the SAME rotation written as another Euler triple (other quaternion sign, "
         "theta outside [0,180], gimbal-lock equivalents) / exactly 180 deg apart / z-axes exactly antipodal / gimbal lock theta in {0,180} / the 24 cube rotations (thorough: all 576 "
         "ordered pairs) / the 45-degree Euler lattice (theta up to 360) / whole-number angles; given to angular_distance, cone_distance, inplane_distance, cone_inplane_distance and to "
@@ -419,7 +419,7 @@ class SymExec:
                 nm = ast.unparse(exc.func) if isinstance(exc, ast.Call) else (ast.unparse(exc) if exc is not None else "reraise")
                 return self.outcome(env, ast.Call(func=ast.Name(id="RAISE", ctx=ast.Load()), args=[ast.Name(id=nm, ctx=ast.Load())], keywords=[]))
             elif isinstance(st, ast.If):
-                cond = self.sub(st.test, env)
+                cond = _norm_test(self.sub(st.test, env))
                 if self._exits(st.body) or self._exits(st.orelse):
                     ea, eb = dict(env), dict(env)
                     oa = self.block(list(st.body), ea, rest + cont)
@@ -456,8 +456,20 @@ class SymExec:
         return self.outcome(env, ast.Constant(value=None))
 
 
+def _norm_test(t):
+    """`not (a == b)` is `a != b` and `not (a != b)` is `a == b` (single comparison): one canonical spelling of a guard"""
+    if isinstance(t, ast.UnaryOp) and isinstance(t.op, ast.Not) and isinstance(t.operand, ast.Compare) and len(t.operand.ops) == 1:
+        flip = {ast.Eq: ast.NotEq, ast.NotEq: ast.Eq, ast.Lt: ast.GtE, ast.GtE: ast.Lt, ast.Gt: ast.LtE, ast.LtE: ast.Gt, ast.Is: ast.IsNot, ast.IsNot: ast.Is,
+                ast.In: ast.NotIn, ast.NotIn: ast.In}
+        op = t.operand.ops[0]
+        if type(op) in (ast.Eq, ast.NotEq, ast.Is, ast.IsNot, ast.In, ast.NotIn):     # (<, >= … are not complements for NaN / arrays: left alone)
+            return ast.copy_location(ast.Compare(left=t.operand.left, ops=[flip[type(op)]()], comparators=t.operand.comparators), t.operand)
+    return t
+
+
 def normal_form(fn):
-    return ast.fix_missing_locations(SymExec(fn).run())
+    _CUR_FN[0] = fn
+    return SymExec(fn).run()
 
 
 
@@ -477,9 +489,38 @@ def _replace(node, target, name):
     return Rp().visit(_copy.deepcopy(node))
 
 
+_CUR_FN = [None]     # the function being translated (set by normal_form): lets _need quote the ORIGINAL statement an expression came from
+
+
+def _origin(node):
+    """(line number, text of the original source statement) the inlined expression `node` stems from"""
+    fn = _CUR_FN[0]
+    if fn is None or node is None:
+        return None
+    own = getattr(node, "lineno", None)      # the top node of the offending expression was copied from the statement it was written in
+    lines = [own] if own else sorted({n.lineno for n in ast.walk(node) if getattr(n, "lineno", None)})[-1:]
+    best = None
+    for ln in lines:
+        for st in ast.walk(fn):
+            if isinstance(st, ast.stmt) and not isinstance(st, (ast.FunctionDef, ast.AsyncFunctionDef, ast.ClassDef)) and st.lineno <= ln <= (st.end_lineno or st.lineno):
+                if best is None or (st.end_lineno - st.lineno, -st.lineno) < (best.end_lineno - best.lineno, -best.lineno):
+                    best = st
+    if best is None:
+        return None
+    txt = ast.unparse(best).splitlines()
+    return best.lineno, txt[0] + (" …" if len(txt) > 1 else "")
+
+
 def _need(ok, fname, what, node=None):
     if not ok:
-        raise core.AnchorMissing(f"{fname}: expected {what}" + (f", found `{ast.unparse(node)[:120]}`" if node is not None else ""))
+        msg = f"{fname}: expected {what}"
+        if node is not None:
+            found = ast.unparse(node)
+            msg += f", found `{found if len(found) <= 400 else found[:400] + ' …'}`"
+            o = _origin(node)
+            if o:
+                msg += f" (from line {o[0]}: `{o[1]}`)"
+        raise core.AnchorMissing(msg)
 
 
 def _npname(f):
@@ -569,7 +610,13 @@ class ETrans:
             ops = {ast.Add: "add", ast.Sub: "sub", ast.Mult: "mul", ast.Div: "div"}
             for k, nm in ops.items():
                 if isinstance(n.op, k):
-                    return f"(E.{nm} {self.e(n.left)} {self.e(n.right)})"
+                    a, b = self.e(n.left), self.e(n.right)
+                    if nm in ("add", "mul"):
+                        # binary64 + and * are commutative bit for bit (NOT associative: only the two operands of ONE node are ordered):
+                        # canonical order = literal first, then by the text of the term, so `arccos(x) * 2` and `2 * arccos(x)` are one model
+                        lit = lambda t: 0 if t.startswith("(E.lit ") or t.startswith("(E.neg (E.lit ") else 1
+                        a, b = sorted([a, b], key=lambda t: (lit(t), t))
+                    return f"(E.{nm} {a} {b})"
         if isinstance(n, ast.Call):
             if isinstance(n.func, ast.Attribute) and n.func.attr == "astype" and len(n.args) == 1 and ast.unparse(n.args[0]) in ("float", "np.float64", "'float64'", "np.double"):
                 return self.e(n.func.value)      # a float64 array stays what it is
@@ -615,6 +662,12 @@ def _norm_mode(num, den, fname):
         newaxis, d = True, d.value
     _need(isinstance(d, ast.Call) and _npname(d.func) == "linalg.norm" and d.args and _eqn(d.args[0], num), fname, "np.linalg.norm of the divided array", den)
     ax, kd = _kw(d, "axis", 2), _kw(d, "keepdims", 3)
+    od = _kw(d, "ord", 1)
+    _need(len(d.args) <= 4 and all(k.arg in ("ord", "axis", "keepdims") for k in d.keywords), fname, "np.linalg.norm with ord / axis / keepdims only", d)
+    # the Euclidean norm: `ord` absent or None; ord=2 is the same ONLY for the vector norms along an axis (without axis, ord=2 of a 2-D array is the
+    # spectral norm, and 1 / np.inf / 0 / negative orders are other norms altogether)
+    od_ok = od is None or (isinstance(od, ast.Constant) and od.value is None) or (_const(od) == 2 and ax is not None)
+    _need(od_ok, fname, "the Euclidean norm (np.linalg.norm without `ord`, or ord=2 along an axis)", d)
     ax = _const(ax) if ax is not None else None
     keep = isinstance(kd, ast.Constant) and kd.value is True
     if ax is None and _kw(d, "axis", 2) is None:
@@ -649,7 +702,10 @@ def _struct_angular(fn):
         if isinstance(n, ast.Call) and _npname(n.func) == "sum" and n.args and isinstance(n.args[0], ast.BinOp) and isinstance(n.args[0].op, ast.Mult):
             l, r = n.args[0].left, n.args[0].right
             ax = _kw(n, "axis", 1)
-            if ((_eqn(l, Q[0]) and _eqn(r, Q[1])) or (_eqn(l, Q[1]) and _eqn(r, Q[0]))) and ax is not None and _const(ax) in (1, -1) and len(n.keywords) <= 1:
+            # exactly np.sum(q1 * q2, axis=1) / np.sum(q1 * q2, 1): a third positional argument is `dtype` (np.sum(x, 1, np.float32) accumulates in
+            # float32), and dtype= / out= / where= / initial= / keepdims= all change the value or its shape -> not the documented dot product
+            plain = len(n.args) <= 2 and all(k.arg == "axis" for k in n.keywords) and len(n.args) + len(n.keywords) == 2
+            if ((_eqn(l, Q[0]) and _eqn(r, Q[1])) or (_eqn(l, Q[1]) and _eqn(r, Q[0]))) and ax is not None and _const(ax) in (1, -1) and plain:
                 return "dot"       # the reduction runs over the 4 components of each row (axis=1): one number per pair
         return None
     tr = ETrans(F, var)
@@ -1079,6 +1135,26 @@ def _normal_vec(rng):
     return [float(rng.randint(-3, 3)), float(rng.randint(-3, 3)), float(rng.randint(1, 3))], "int"
 
 
+def _k1_prediction(v):
+    """(theta, psi) in degrees that the K1 MECHANISM produces for the normal v: the documented formulas of normals_to_euler_angles evaluated in binary64 with
+    r = sqrt(x*x + y*y + z*z) -- which is inf once the sum overflows (n/inf = +-0 -> theta 0 or 180, psi 0) and 0 or a few-bit subnormal once it underflows
+    (n/0 = inf/NaN, or a direction with only the digits the subnormal kept). Written out here, independent of the code under test and of the regenerated model."""
+    with np.errstate(all="ignore"):
+        x, y, z = (np.float64(t) for t in v)
+        r = np.sqrt(x * x + y * y + z * z)
+        ux, uy, uz = x / r, y / r, z / r
+        theta = np.degrees(np.arctan2(np.sqrt(ux * ux + uy * uy), uz))
+        psi = np.float64(0.0) if (ux == 0 and uy == 0) else 90 + np.degrees(np.arctan2(uy, ux))
+    return float(theta), float(psi)
+
+
+def _same_angle(a, b, tol=1e-8):
+    if math.isnan(a) or math.isnan(b):
+        return math.isnan(a) and math.isnan(b)
+    d = abs(a - b) % 360.0
+    return min(d, 360.0 - d) <= tol
+
+
 def _sumsq_state(v):
     """does x*x + y*y + z*z (as numpy computes it) stay a normal double? 'ok' | 'overflow' | 'underflow'"""
     with np.errstate(all="ignore"):
@@ -1198,7 +1274,7 @@ def generate(rng, tier, n):
         elif k < 0.515:   # H3: whole-number angles in an INTEGER-typed ndarray (a STAR/em table with integer angles is read as int64)
             yield _pair_case(rng, 1 if rng.random() < 0.1 else rng.randint(2, maxn), input=rng.choice(["ndarray", "ndarray", "mixed", "mixed2"]), intdtype=True)
         elif k < 0.52:    # sizes up to the bound the quantifier names
-            yield _pair_case(rng, rng.randint(161, 500) if tier != "search" else rng.randint(257, 300))
+            yield _pair_case(rng, (rng.randint(161, 500) if rng.random() < 0.5 else rng.randint(25, 47)) if tier != "search" else rng.randint(257, 300))
         elif k < 0.56:   # many exactly antipodal z-axes / equal rotations in one batch (rare rounding events need many rows)
             yield _pair_case(rng, rng.randint(48, 160), kinds=[rng.choice(["zflip", "zflip", "equal", "antipodal"])])
         elif k < 0.64:
@@ -1647,9 +1723,10 @@ def _common_findings(obs, expected_errors=()):
         else:
             out.append(dict(kind="corr", clause="harness-or-library-raised", detail=f"{key}: {e['error']} (no frame inside cryocat/)"))
     for m in obs.get("mutated", [])[:1]:
-        out.append(dict(kind="spec", clause="input-mutated", detail=f"the call {m.split(':')[0]} changed the caller's array `{m.split(':')[1]}` in place ({len(obs['mutated'])} call(s) did)"))
+        # the statement is silent about the caller's arrays and about result dtypes: deviations from the documented behaviour, not clauses (corr)
+        out.append(dict(kind="corr", clause="input-mutated", detail=f"the call {m.split(':')[0]} changed the caller's array `{m.split(':')[1]}` in place ({len(obs['mutated'])} call(s) did)"))
     for m in obs.get("nonnumeric", [])[:1]:
-        out.append(dict(kind="spec", clause="returns-non-numeric", detail=f"a numeric result came back as text/object: {m}"))
+        out.append(dict(kind="corr", clause="returns-non-numeric", detail=f"a numeric result came back as text/object: {m}"))
     return out
 
 
@@ -1861,7 +1938,8 @@ def _judge_n2e(case, obs, resps):
         return [dict(kind="corr", clause="n2e-input-dispatch-vs-model", detail=f"input of type {'pd.DataFrame' if case.get('df') else 'np.ndarray'}: model {m['raises']!r}, implementation returned angles")]
     zl = _floats(resps[1]["z"])   # Lean zxz model (zaxisOfEuler) applied to the implementation's angles
     # C06-K1 (H5, exact rule): the row is WRONG (NaN angle, or z-axis off per Lean AND scipy) AND its squared length x*x+y*y+z*z overflows or is
-    # not a normal double. Such rows are set aside; EVERY other row of the batch -- and the column order, the return type and the model
+    # not a normal double AND the returned (theta, psi) are the ones the K1 mechanism produces (_k1_prediction: norm -> inf / 0 / few-bit subnormal).
+    # A wrong row in that range with ANY OTHER result is a new defect and stays unlisted. K1 rows are set aside; EVERY other row of the batch -- and the column order, the return type and the model
     # comparison of the case -- is judged as usual; the K1 finding is reported only when nothing unlisted is found.
     k1 = []
     k1rows = np.zeros(n, dtype=bool)
@@ -1875,13 +1953,16 @@ def _judge_n2e(case, obs, resps):
         elif not np.abs(zl[i] - u[i]).max() <= TOL_VEC and not np.abs(z[i] - u[i]).max() <= TOL_VEC:   # Lean evaluation AND scipy evaluation agree it is off
             bad = (f"row {i} ({case['tags'][i]}): normal {nv[i].tolist()} -> angles (phi,theta,psi)={ang[i].tolist()} whose z-axis is {zl[i].tolist()}, "
                    f"expected the normalised normal {u[i].tolist()}")
-        if bad and state != "ok":
+        if bad and state != "ok" and all(_same_angle(g, w) for g, w in zip(ang[i][1:3], _k1_prediction(nv[i]))):
             # its own clause name: the shrinker keeps (kind, clause) fixed, so an unlisted failure can never be "shrunk" into a row of the known finding
             k1.append(dict(kind="spec", clause="n2e-zaxis-is-normalised-normal[squared-length-outside-binary64]", known="C06-K1",
                            detail=bad + f" [x*x+y*y+z*z {state}s in binary64: np.linalg.norm gives {'inf' if state == 'overflow' else '0 or a subnormal'}]"))
             k1rows[i] = True
             continue
         if bad:
+            if state != "ok":
+                bad += (f" [x*x+y*y+z*z {state}s in binary64, but this is NOT the result known finding C06-K1 explains: the overflow/underflow of the norm gives "
+                        f"(theta, psi) = {_k1_prediction(nv[i])}]")
             return [dict(kind="spec", clause="n2e-zaxis-is-normalised-normal", detail=bad)]
         if state == "ok" and not (0 <= ang[i][0] < 360):
             return [dict(kind="corr", clause="n2e-phi-range", detail=f"row {i}: phi {ang[i][0]}")]
@@ -2075,10 +2156,12 @@ def sample_view(case):
 
 def classify(case, obs, finding):
     """C06-K1 (exact rule, H5): a row of normals_to_euler_angles that is WRONG (NaN angle, or its z-axis differs from the normalised normal by more than
-    1e-12 according to BOTH the Lean zxz model and scipy) AND whose squared length x*x+y*y+z*z, as numpy computes it, overflows to inf or is below the
-    smallest normal double (2.2e-308). Rows whose squared length is subnormal but whose result is still right are NOT findings; wrong rows with a normal
-    squared length are unlisted violations. Only findings the judge tagged for exactly that class carry the id; every other row of the same batch, the
-    column order, the return type and the model comparison are judged as usual."""
+    1e-12 according to BOTH the Lean zxz model and scipy), whose squared length x*x+y*y+z*z, as numpy computes it, overflows to inf or is below the
+    smallest normal double (2.2e-308), AND whose returned (theta, psi) equal (1e-8 deg, NaN = NaN) what the documented formulas give when the norm is
+    that inf / 0 / few-bit subnormal (_k1_prediction). Rows in that range whose result is still right are not findings; wrong rows with a normal
+    squared length, and wrong rows in that range with any OTHER result (a new defect hiding below 1.5e-154), are unlisted violations. Only findings
+    the judge tagged for exactly that class carry the id; every other row of the same batch, the column order, the return type and the model
+    comparison are judged as usual."""
     return finding.get("known")
 
 
